@@ -194,7 +194,15 @@ static void log_call(int kind, int arg, uintptr_t addr, size_t len, uintptr_t re
 void* vf_real_mmap(void* addr, size_t len, int prot, int flags, int fd, long off) { return mmap(addr, len, prot, flags, fd, off); }
 int   vf_real_munmap(void* addr, size_t len) { return munmap(addr, len); }
 
+/* Under the schedule explorer a call that changes the address space is a visible operation on a resource shared by all
+ * threads (a late madvise of one thread can wipe what another thread stores there): a scheduling point on one pseudo-address.
+ * Outside an exploration vf_point returns at once. */
+int vf_point(int kind, const volatile void* addr);
+static volatile char vf_os_token;
+#define VF_OS_POINT() ((void)vf_point(3 /* VF_RMW */, &vf_os_token))
+
 void* vf_os_mmap(void* addr, size_t len, int prot, int flags, int fd, long off) {
+  VF_OS_POINT();
   os_lock();
   long idx = vf_os.ncalls;
   if (plan_fails(VF_C_MMAP, idx) || (flags & MAP_HUGETLB)) {
@@ -222,6 +230,7 @@ void* vf_os_mmap(void* addr, size_t len, int prot, int flags, int fd, long off) 
 static void note_untracked(uintptr_t a) { vf_os.untracked_touch++; if (!vf_os.untracked_addr) vf_os.untracked_addr = a; }
 
 int vf_os_munmap(void* addr, size_t len) {
+  VF_OS_POINT();
   os_lock();
   long idx = vf_os.ncalls;
   if (vf_os.monitor) vf_os.monitor(VF_C_MUNMAP, 0, (uintptr_t)addr, len);
@@ -240,6 +249,7 @@ int vf_os_munmap(void* addr, size_t len) {
 }
 
 int vf_os_mprotect(void* addr, size_t len, int prot) {
+  VF_OS_POINT();
   os_lock();
   long idx = vf_os.ncalls;
   if (prot == PROT_NONE && vf_os.monitor) vf_os.monitor(VF_C_MPROTECT, prot, (uintptr_t)addr, len);
@@ -261,6 +271,7 @@ int vf_os_mprotect(void* addr, size_t len, int prot) {
 }
 
 int vf_os_madvise(void* addr, size_t len, int advice) {
+  VF_OS_POINT();
   if (advice != MADV_DONTNEED && advice != MADV_FREE) {
     /* MADV_HUGEPAGE and friends: accepted and dropped; not a counted call */
     return 0;
